@@ -55,9 +55,10 @@ func alevel(n *anode) int {
 }
 
 type c03gen struct {
-	r     *rand.Rand
-	names []string
-	ucl   []string
+	r      *rand.Rand
+	names  []string
+	ucl    []string
+	subset bool // restrict to what the bootstrap front-end understands
 }
 
 var c03Idents = []string{"A", "b", "Rule1", "x_y", "_u", "Ünï", "日本", "aB9", "Z", "r٣", "whitespace", "EOF", "Expr", "term2"}
@@ -69,7 +70,11 @@ func (g *c03gen) expr(depth int) *anode {
 	if depth <= 0 {
 		return g.primary()
 	}
-	switch r.Intn(14) {
+	k14 := r.Intn(14)
+	if g.subset && (k14 == 10 || k14 == 11) {
+		k14 = 12
+	}
+	switch k14 {
 	case 0, 1:
 		n := &anode{kind: "Choice"}
 		for i := 0; i < 2+r.Intn(3); i++ {
@@ -142,6 +147,9 @@ func (g *c03gen) primary() *anode {
 	case 6, 7:
 		return &anode{kind: "RuleRef", name: g.names[r.Intn(len(g.names))]}
 	}
+	if g.subset {
+		return &anode{kind: "Any"}
+	}
 	return &anode{kind: []string{"AndCode", "NotCode", "StateCode"}[r.Intn(3)], code: g.code()}
 }
 
@@ -151,7 +159,12 @@ var c03CodeBits = []string{
 	"z := \"\\\\\"", "",
 }
 
+var c03SubsetCodeBits = []string{"return nil, nil", "if a { b() } else { c() }", "for { break }", "f(func() { g() })", "x := 1", "é := 世", ""}
+
 func (g *c03gen) code() string {
+	if g.subset {
+		return "{ " + c03SubsetCodeBits[g.r.Intn(len(c03SubsetCodeBits))] + " }"
+	}
 	var sb strings.Builder
 	sb.WriteString("{")
 	for i := 0; i < g.r.Intn(4); i++ {
@@ -168,8 +181,9 @@ func (g *c03gen) code() string {
 // ---- spelling ----------------------------------------------------------------------------------
 
 type speller struct {
-	r  *rand.Rand
-	sb strings.Builder
+	r      *rand.Rand
+	sb     strings.Builder
+	subset bool // bootstrap subset: blanks and tabs only, no comments, no newline inside a rule
 }
 
 func (s *speller) off() int { return s.sb.Len() }
@@ -177,6 +191,14 @@ func (s *speller) off() int { return s.sb.Len() }
 // ws writes optional blank space / comments allowed at a `__` site. need: at least a separator.
 func (s *speller) ws(need bool) {
 	r := s.r
+	if s.subset {
+		k := r.Intn(3)
+		if need && k == 0 {
+			k = 1
+		}
+		s.sb.WriteString(strings.Repeat(" ", k))
+		return
+	}
 	n := r.Intn(3)
 	if need && n == 0 {
 		n = 1
@@ -422,7 +444,11 @@ func (s *speller) grammar(init string, rules []*arule) (initOff int) {
 		initOff = s.off()
 		s.sb.WriteString(init)
 		// EOS after the initializer
-		switch s.r.Intn(3) {
+		k3 := s.r.Intn(3)
+		if s.subset && k3 == 2 {
+			k3 = 1
+		}
+		switch k3 {
 		case 0:
 			s.sb.WriteString(" ;")
 		case 1:
@@ -443,8 +469,15 @@ func (s *speller) grammar(init string, rules []*arule) (initOff int) {
 		}
 		s.sb.WriteString([]string{"=", "<-", "←", "⟵"}[s.r.Intn(4)])
 		s.ws(false)
+		if s.subset && s.r.Intn(4) == 0 {
+			s.sb.WriteString("\n  ") // a newline is tolerated directly after the rule operator
+		}
 		s.emit(ru.expr, 0)
 		last := i == len(rules)-1
+		if s.subset {
+			s.sb.WriteString([]string{"\n", ";", " ;\n", "\n\n", "; "}[s.r.Intn(5)])
+			continue
+		}
 		switch k := s.r.Intn(5); {
 		case k == 0:
 			s.ws(false)
